@@ -63,7 +63,12 @@ CLAIMED['C02'] = dict(
          '(aliasing between symbolic box references decided by the solver): a captured variable is one heap cell addressed by the '
          'box identity; op_box/op_empty_box create a fresh cell, op_fill_box/op_set_box/op_set_capture write exactly that cell, '
          'op_get_box/op_get_capture read it, op_closure copies box identities (not values) in operand order for up to 3 captures. '
-         'Resolver capture analysis and the emission per symbol state are not yet machine checked.',
+         'C02.K2 the real Compiler::resolve_capture / add_capture over a chain of three compilers with arbitrary existing captures and '
+         'arbitrary name-lookup answers: capture chains stay well formed (every Enclosing(k) names a capture that exists one level up, '
+         'answers that need a capture name one that exists, every function between use and declaration carries it, module-level '
+         'answers record nothing, capture counts match the capture lists); Compiler::child starts a nested function without the '
+         'module table, locals or captures, so enclosing locals shadow module names. The resolver pass (which locals become boxes) and '
+         'the emission per symbol state are not yet machine checked.',
     note='Trusted: rustc MIR printer, mirsym, abstract object identities + identity-indexed heap arrays (vmabs.py), Z3. '
          'Captures / LyBox / Closure accessors are executed from laythe_core MIR.',
     ref='§4 C02')
@@ -194,6 +199,20 @@ CLAIMED['C17'] = dict(
     note='Trusted: rustc MIR printer, mirsym, abstract identities for modules / strings (paths compare by identity: interning is '
          'C09), laythe Map over the association-list hash map model, Z3. Assumes the working directory exists.',
     ref='§4 C17')
+
+CLAIMED['C19'] = dict(
+    text='Decides with Z3 over the real MIR: C19.K1 Vm::compile (every prompt entry and every module goes through it) with parser / '
+         'resolver / lowering summarised by their results and the real Compiler::new, CacheIdEmitter and InlineCache executed: the '
+         'inline-cache ids handed out by a compile start where the ids of earlier compiles of that module end, after a successful '
+         'compile the module\'s cache holds every id ever handed out for it, a failed compile leaves the caches as they were; C19.K2 '
+         'Vm::stack_unwind with the fiber unwind summarised: an error nobody handles is printed and reported, and the run queue, '
+         'packages, module cache and inline caches that carry a session from one entry to the next are untouched; plus the capture '
+         'chain obligation C02.K2 (symbols of earlier entries referenced from nested functions). Found and fixed F11 (slot ids '
+         'restarted per entry: wrong method dispatched or out-of-bounds cache read at the prompt). Repl-mode name resolution in the '
+         'resolver and the read-compile-run loop itself are not yet machine checked.',
+    note='Trusted: rustc MIR printer, mirsym, summaries of Parser::parse / Resolver::resolve / Compiler::compile (the compiler hands out '
+         'consecutive ids from the emitter state it was created with), Z3.',
+    ref='§4 C19')
 
 NOT_APPLICABLE = {
     'C08': 'global liveness of the fiber scheduler needs the running Vm (DESIGN.md §6); no bounded symbolic encoding of the real scheduler is within reach',
